@@ -36,7 +36,10 @@ func (ps Prices) Insert(commodity *commodity.Commodity, price decimal.Decimal, t
 		return fmt.Errorf("invalid price %s for commodity %s in %s", price.String(), commodity.Name(), target.Name())
 	}
 	ps.addPrice(target, commodity, price)
-	ps.addPrice(commodity, target, one.Div(price).Truncate(8))
+	// QuoRem truncates exactly; Div would round to 16 digits first, and truncating
+	// that rounds up a reciprocal such as 0.123456789999999997...
+	inverse, _ := one.QuoRem(price, 8)
+	ps.addPrice(commodity, target, inverse)
 	return nil
 }
 
